@@ -1231,8 +1231,12 @@ static void uv__stream_io(uv_loop_t* loop, uv__io_t* w, unsigned int events) {
     uv__write(stream);
     uv__write_callbacks(stream);
 
-    /* Write queue drained. */
-    if (uv__queue_empty(&stream->write_queue))
+    /* Write queue drained. A write callback may have submitted a write that
+     * completed at once; its callback is still owed (it was fed to the pending
+     * queue) and must run before the shutdown callback.
+     */
+    if (uv__queue_empty(&stream->write_queue) &&
+        uv__queue_empty(&stream->write_completed_queue))
       uv__drain(stream);
   }
 }
